@@ -13,6 +13,15 @@ structure CodecRow where
   rawLen : Nat
   result : Out Bytes
 
+/-- a row `B:<method>:<crc32 of the compressed stream>:<its length>:<k>:<hex>`: the bytes the codec library
+hands out before its error to a consumer that asks for `k` bytes (`Ext.decodeBefore`) -/
+structure BeforeRow where
+  method : Nat
+  rawCrc : Nat
+  rawLen : Nat
+  k : Nat
+  bytes : Bytes
+
 def parseErrClass (s : String) : ZErr :=
   match s with
   | "io:eof" => .io .unexpectedEof
@@ -38,7 +47,16 @@ def parseCodec (s : String) : List CodecRow :=
       some ⟨m, c, l, .err (parseErrClass k)⟩
     | _ => none
 
-def mkExt (rows : List CodecRow) : Ext where
+def parseBefore (s : String) : List BeforeRow :=
+  if s == "-" || s == "" then [] else
+  (s.splitOn ";").filterMap fun row =>
+    match row.splitOn ":" with
+    | ["B", m, c, l, k, d] => do
+      let m ← m.toNat?; let c ← c.toNat?; let l ← l.toNat?; let k ← k.toNat?; let d ← parseHex d
+      some ⟨m, c, l, k, d⟩
+    | _ => none
+
+def mkExtB (rows : List CodecRow) (before : List BeforeRow) : Ext where
   decode m raw :=
     match m with
     | .stored => .ok raw
@@ -47,8 +65,16 @@ def mkExt (rows : List CodecRow) : Ext where
       match rows.find? (fun r => r.method == m.toU16.toNat && r.rawCrc == c && r.rawLen == raw.length) with
       | some r => r.result
       | none => .panic "codec-table-miss"
+  decodeBefore m raw k :=
+    if before.isEmpty then [] else
+    let c := (Spec.Crc32.crc32 raw).toNat
+    match before.find? (fun r => r.method == m.toU16.toNat && r.rawCrc == c && r.rawLen == raw.length && r.k == k) with
+    | some r => r.bytes
+    | none => []
   zipCrypto _ _ _ := .panic "zipcrypto-not-wired"
   aes _ _ _ _ := .panic "aes-not-wired"
+
+def mkExt (rows : List CodecRow) : Ext := mkExtB rows []
 
 def showOpt (o : Option UInt32) : String := match o with | some v => toString v.toNat | none => "none"
 
@@ -137,7 +163,10 @@ def readMem (bytes : Bytes) : String :=
   | (.err e, _) => "open=" ++ (Out.className e).replace " " ":"
   | (.panic s, _) => "open=panic:" ++ s
   | (.ok a, _) => s!"open=ok n={a.files.length}"
-def readStreamC (bytes : Bytes) (ext : Ext) (pattern : List Nat) : String :=
+/-- `read.streamc`: the entry loop under the consumers `pattern` (`consume=` the decoded bytes each asks for;
+`pulled=` the compressed bytes its reads pull through the `Take`, by default as many as it asks for — exact
+for Stored entries, and nothing printed depends on it: `Props.C10.drain_positions`). -/
+def readStreamC (bytes : Bytes) (ext : Ext) (pattern : List Consume) : String :=
   match (streamEntriesC ext pattern (bytes.length / 30 + 1) 0).runPure (Dev.ofBytes bytes) with
   | (.err e, _) => "end=" ++ (Out.className e).replace " " ":"
   | (.panic s, _) => "end=panic:" ++ s
@@ -159,7 +188,13 @@ def opRead (op : String) (a : Args) : Option String := do
   | "read.mem" => some (readMem bytes)
   | "read.streamc" =>
     let pat ← (a.get? "consume").bind natList?
-    some (readStreamC bytes ext (if pat.isEmpty then [0] else pat))
+    let pat := if pat.isEmpty then [0] else pat
+    let pulled := ((a.get? "pulled").bind natList?).getD []
+    let chunk := (a.nat? "cbuf").getD 65536
+    let cs : List Consume := (List.range pat.length).map fun i =>
+      let k := pat.getD i 0
+      { k, pulled := (pulled[i % pulled.length]?).getD k, chunk }
+    some (readStreamC bytes (mkExtB (parseCodec ((a.get? "codec").getD "-")) (parseBefore ((a.get? "codec").getD "-"))) cs)
   | _ => none
 
 end Driver
